@@ -129,6 +129,8 @@ int simk_stat(const char *, struct stat *);
 void *simk_mmap(void *, size_t, int, int, int, off_t);
 int simk_munmap(void *, size_t);
 void *simk_realloc(void *, size_t);
+void *simk_malloc(size_t);
+void *simk_calloc(size_t, size_t);
 /* payload copies into / out of shared regions, word by word (only in access-instrumented objects) */
 void *simk_memcpy(void *, const void *, size_t);
 /* identity, signals, randomness */
@@ -223,6 +225,8 @@ simk_sighandler_t simk_signal(int, simk_sighandler_t);
 #define mmap(...) simk_mmap(__VA_ARGS__)
 #define munmap(...) simk_munmap(__VA_ARGS__)
 #define realloc(...) simk_realloc(__VA_ARGS__)
+#define malloc(...) simk_malloc(__VA_ARGS__)
+#define calloc(...) simk_calloc(__VA_ARGS__)
 #define getpid(...) simk_getpid(__VA_ARGS__)
 #define kill(...) simk_kill(__VA_ARGS__)
 #define random(...) simk_random(__VA_ARGS__)
